@@ -632,6 +632,15 @@ func (h *supH) armedCtxs() []string {
 	return l
 }
 
+func (h *supH) killArmed(n string) bool {
+	for _, x := range h.armedCtxs() {
+		if x == n {
+			return true
+		}
+	}
+	return false
+}
+
 // shutdownWaiting: some thread is parked inside ShutDownProject waiting for its waiters
 func (h *supH) shutdownWaiting() bool {
 	for _, t := range verif.S.Threads() {
@@ -920,6 +929,119 @@ func (h *supH) directedStopThenShutdown(emit func(string)) {
 	}
 }
 
+// directedRestartSlowStopper: a restart (or a stop followed by a start) of a process that ignores the
+// stop signal and has a shutdown timeout: the stop returns only when the kill timeout has fired, so the
+// new command is launched only after the previous one is gone.
+func (h *supH) directedRestartSlowStopper(emit func(string)) {
+	for _, pol := range []string{"no", "always"} {
+		for _, req := range []string{"restart", "stopstart"} {
+			emit("sup coarse 0")
+			emit(fmt.Sprintf("proc a %s 0 - 40 0 ign -", pol))
+			emit("proc b no 0 - 0 0 0 -")
+			emit("init")
+			emit("s call 0 run")
+			h.drain(emit)
+			if req == "restart" {
+				emit("s call 1 restart a")
+				h.drain(emit)
+			} else {
+				emit("s call 1 stop a")
+				h.drain(emit)
+				if len(h.aliveNames()) == 2 && !h.killArmed("a") {
+					// the stop has returned although the command is alive: the start is accepted or not, either way observed
+					emit("s call 3 start a")
+					h.drain(emit)
+				}
+			}
+			emit("s call 2 state a")
+			h.drain(emit)
+			if h.killArmed("a") {
+				emit("s killto a")
+				h.drain(emit)
+			}
+			if req == "stopstart" {
+				emit("s call 4 start a")
+				h.drain(emit)
+			}
+			emit("s call 9 shutdown")
+			h.drain(emit)
+			for i := 0; i < 8 && !h.dead; i++ {
+				if h.killArmed("a") {
+					emit("s killto a")
+					h.drain(emit)
+					continue
+				}
+				al := h.aliveNames()
+				if len(al) == 0 {
+					break
+				}
+				emit(fmt.Sprintf("s exit %s 0", al[0]))
+				h.drain(emit)
+			}
+			if len(h.aliveNames()) == 0 && len(h.enabledKeys()) == 0 {
+				emit("end quiescent")
+			} else {
+				emit("end limit")
+			}
+		}
+	}
+}
+
+// directedRestartedDependency: the dependency's first instance ended badly (failed, or was terminated
+// by a stop / a restart), it is started again, and while the new instance is still running a dependent
+// (process_completed / process_completed_successfully) is started by a request: it must not be launched
+// on the strength of the instance that ended badly.
+func (h *supH) directedRestartedDependency(emit func(string)) {
+	for _, cond := range []string{"s", "c"} {
+		for _, how := range []string{"fail-start", "stop-start", "restart"} {
+			emit("sup coarse 0")
+			emit("proc a no 0 - 0 0 143 -")
+			emit(fmt.Sprintf("proc b no 0 x 0 0 0 a:%s", cond))
+			emit("proc k no 0 - 0 0 0 -")
+			emit("deps b a:" + cond)
+			emit("init")
+			emit("s call 0 run")
+			h.drain(emit)
+			switch how {
+			case "fail-start":
+				emit("s exit a 3")
+				h.drain(emit)
+				emit("s call 1 start a")
+				h.drain(emit)
+			case "stop-start":
+				emit("s call 1 stop a")
+				h.drain(emit)
+				emit("s call 2 start a")
+				h.drain(emit)
+			case "restart":
+				emit("s call 1 restart a")
+				h.drain(emit)
+			}
+			emit("s call 3 start b")
+			h.drain(emit)
+			emit("s call 4 state b")
+			h.drain(emit)
+			emit("s exit a 0")
+			h.drain(emit)
+			emit("s call 9 shutdown")
+			h.drain(emit)
+			for i := 0; i < 8 && !h.dead; i++ {
+				al := h.aliveNames()
+				if len(al) == 0 {
+					break
+				}
+				emit(fmt.Sprintf("s exit %s 0", al[0]))
+				h.drain(emit)
+			}
+			if len(h.aliveNames()) == 0 && len(h.enabledKeys()) == 0 {
+				emit("end quiescent")
+			} else {
+				emit("end limit")
+			}
+		}
+	}
+}
+
 // directedManual: start / stop / restart requests on a running, a finished and an unknown process,
 // for a plain process and for a replica of a replicated one (name differs from the replica name).
 func (h *supH) directedManual(emit func(string)) {
@@ -1092,6 +1214,8 @@ func (h *supH) Gen(r *rand.Rand, tier string, emit func(string)) {
 	h.directedShutdownCoverage(emit)
 	h.directedProbeFatal(emit)
 	h.directedManual(emit)
+	h.directedRestartSlowStopper(emit)
+	h.directedRestartedDependency(emit)
 	h.directedExit(emit)
 	h.directedStopThenShutdown(emit)
 	scen, maxProcs, maxSteps := 120, 4, 120
